@@ -390,16 +390,24 @@ def t2_lookup(table, site):
     while prog is not None and top is not None and top.kind == "Closure" and n < 6:
         top = prog.bodies.get(top.parent)
         n += 1
-    if top is None or top is b and "{closure" not in site.fn:
+    if top is None:
         return None
     parts = site.key.split("|")
+    same_fn_only = top is b and "{closure" not in site.fn
     for k, e in table.items():
         kp = k.split("|")
         if len(kp) < 3 or kp[0] != parts[0] or kp[2] != parts[2]:
             continue
-        kfn = kp[1].split("::{closure")[0]
-        if kfn != top.path:
-            continue
+        if same_fn_only:
+            # a site of a pinned function whose ordinal changed (a sibling site moved in or out of
+            # a closure): only an entry of that very function that names the guards it relies on,
+            # tied to the operand through named groups, may be re-used
+            if kp[1] != site.fn or len(e) < 3 or not e[2] or "(?P<" not in e[0]:
+                continue
+        else:
+            kfn = kp[1].split("::{closure")[0]
+            if kfn != top.path:
+                continue
         if t2_match(e, site)[0]:
             return e
     return None
@@ -410,11 +418,21 @@ def t2_match(ent, site, extra_text=""):
     expression must still match the shape, and every guard the audit relies on must still dominate
     the site.  Returns (ok, why-not)."""
     rx = ent[0]
-    if not re.search(rx, site.shape() + extra_text):
+    m = re.search(rx, site.shape() + extra_text)
+    if not m:
         return False, "audited site changed shape: expected /%s/ in `%s`" % (rx, site.shape()[:200])
+    # named groups of the shape regex tie the guards to the operands: `{name}` in a guard regex is
+    # the text the group matched
+    groups = {k: v for k, v in m.groupdict().items() if v is not None}
+
+    def tie(grx):
+        for k, v in groups.items():
+            grx = grx.replace("{%s}" % k, re.escape(v))
+        return grx
     if len(ent) > 2:
         gs = site_guards(site)
         for grx in ent[2]:
+            grx = tie(grx)
             if not any(re.search(grx, g) for g in gs):
                 return False, "the guard the audit relies on (/%s/) no longer dominates the site; dominating guards are %s" % (grx, [g[:80] for g in gs])
     if len(ent) > 3 and ent[3]:
